@@ -5,6 +5,7 @@ mod ops_basic;
 mod ops_cache;
 mod ops_checker;
 mod ops_claim;
+mod ops_fetch;
 
 use std::io::{BufRead, Write};
 
@@ -39,6 +40,9 @@ fn serve() {
         let fields: Vec<String> = it.map(util::unhex).collect();
         let res = std::panic::catch_unwind(std::panic::AssertUnwindSafe(|| {
             if let Some(r) = ops_cache::dispatch(&mut cst, &op, &fields) {
+                return r;
+            }
+            if let Some(r) = ops_fetch::dispatch(&mut cst, &op, &fields) {
                 return r;
             }
             if let Some(r) = ops_claim::dispatch(&mut qst, &op, &fields) {
